@@ -158,6 +158,17 @@ theorem C01_total (raw : Bytes) (hw : raw.wf) :
     obtain ⟨b', henc, hdec⟩ := roundtrip_lax hwf
     exact ⟨m, b', rfl, henc, by rw [hdec, hcanon]⟩
 
+/-- **What the parser accepts.** A byte string that is parsed is either an RFC 7252 §3 datagram
+of exactly the returned message, or falls under one of the three leniencies of the code (each a
+"message format error" in the RFC): a payload marker followed by nothing (the rest being an RFC
+datagram of the returned message), a token length nibble 9..15, or a token cut short by the end
+of the datagram.  All of them still round-trip by `C01_total`. -/
+theorem C01_accepted_language (raw : Bytes) (m : Msg) (hw : raw.wf) (h : decode raw = .ok m) :
+    Datagram raw m ∨
+    (∃ pre, raw = pre ++ [0xFF] ∧ Datagram pre m) ∨
+    (∃ vttkl rest, raw = vttkl :: rest ∧ (8 < vttkl % 16 ∨ rest.length < 3 + vttkl % 16)) :=
+  decode_accepted hw h
+
 -- non-vacuity --------------------------------------------------------------------------------
 
 /-- a message with every format, repeated options, an unknown number, and deltas
